@@ -226,6 +226,12 @@ func ParseSpecs(prog *Program) *Specs {
 			f := strings.Fields(rest)
 			for _, p := range strings.Split(f[1], ",") {
 				n, _ := strconv.Atoi(p)
+				if p == "*" {
+					n = -1
+				}
+				if p == "nil" {
+					n = -2
+				}
 				cur.Lens[f[0]] = append(cur.Lens[f[0]], n)
 			}
 		case "uses":
